@@ -297,6 +297,17 @@ func WarningContents(s *gtfs.Static, rendered map[string]Rendered) abs.Seq[bool]
 		if ok && w.RowNumber == 0 { // a warning about the header itself
 			good = eq(w.RowContent, rd.Header) && eq(w.HeaderContent, rd.Header)
 		}
+		// a warning that says which values the row lacks must name columns whose cells in that row really are blank
+		if k, isMissing := w.Kind.(warnings.AgencyMissingValues); isMissing && good && w.RowNumber >= 1 {
+			row := rd.Rows[w.RowNumber-1]
+			for _, col := range k.Columns {
+				for i, h := range rd.Header {
+					if h == col && i < len(row) && row[i] != "" {
+						good = false
+					}
+				}
+			}
+		}
 		out = append(out, good)
 	}
 	return out
